@@ -362,6 +362,8 @@ class CPGen:
         if kind == 'rcmp':
             a, _ = self.re_ok(max(d - 1, 0), const)
             b, _ = self.re_ok(max(d - 1, 0), const)
+            if _names(a) & _names(b) & VARNAMES:
+                b, _ = self.rlit()      # no variable on both sides: a re-associated sum must not decide a tie
             return f"{a} {rng.choice(['<', '<=', '>', '>='])} {b}"
         if kind == 'not':
             inner = self.le(d - 1, const)
@@ -377,7 +379,11 @@ class CPGen:
         rng = self.rng
         if rng.random() < 0.5:
             return f"{self.ie_v(d)} {rng.choice(['==', '/=', '<', '<=', '>', '>='])} {self.ie_b(max(d - 1, 0), rng.random() < 0.5, 10 ** 6)}"
-        return f"{self.re_v(d)} {rng.choice(['<', '>', '<=', '>='])} {self.re_ok(max(d - 1, 0), rng.random() < 0.5)[0]}"
+        lhs = self.re_v(d)
+        rhs = self.re_ok(max(d - 1, 0), rng.random() < 0.5)[0]
+        if _names(lhs) & _names(rhs) & VARNAMES:
+            rhs = self.rlit()[0]
+        return f"{lhs} {rng.choice(['<', '>', '<=', '>='])} {rhs}"
 
     def cond(self, d):
         """condition: decidable (constants only) or undecidable"""
@@ -616,8 +622,8 @@ class CPGen:
             yv = rng.choice(self.vreal)
             ua = 'ua1' if self.lsub_unused else 'w'
             if kw:
-                return [f'{ind}call lsub({x}, {ua}, r={yv}, t={rng.choice(self.kreal + ["x1"])})']
-            return [f'{ind}call lsub({x}, {ua}, {rng.choice(self.kreal + ["x1"])}, {yv})']
+                return [f'{ind}call lsub({x}, n, {ua}, r={yv}, t={rng.choice(self.kreal + ["x1"])})']
+            return [f'{ind}call lsub({x}, n, {ua}, {rng.choice(self.kreal + ["x1"])}, {yv})']
         if kw:
             return [f'{ind}call isub({ov}, q={self.ie_b(1, rng.random() < 0.5, 100)}, iu={self.ie_b(0, True, 100)})']
         return [f'{ind}call isub({ov}, {self.ie_b(0, True, 100)}, {self.ie_b(1, rng.random() < 0.5, 100)})']
@@ -724,7 +730,7 @@ class CPGen:
         elif hz == 'accumulator_varbound':
             s = ['hz1 = 0', 'do i = 1, n', '  hz1 = hz1 + 2', '  tab(1 + mod(i, 5)) = hz1', 'end do', f'oi({T1}) = hz1 + tab(2)']
         elif hz == 'cond_assign_in_loop':
-            s = ['hz1 = 2', 'do i = 1, 4', '  if (k1 + i > 5) hz1 = 9', 'end do', f'oi({T1}) = hz1']
+            s = ['hz1 = 2', 'do i = 1, 4', '  if (k1 + i > 100) hz1 = 9', 'end do', f'oi({T1}) = hz1']
         elif hz == 'save_init':
             self.extra_decl.append('integer :: hzs = 0')
             s = ['hzs = hzs + 1', f'oi({T1}) = hzs']
@@ -732,9 +738,9 @@ class CPGen:
             s = ['hz1 = 0', 'hz2 = k1', 'v3 = mod(abs(k2), 3)', 'do while (hz1 < 3)', '  hz2 = hz2 + hz1', '  hz1 = hz1 + 1',
                  '  v3 = v3 + 1', '  if (v3 > 40) exit', 'end do', f'oi({T1}) = hz2', f'oi({T2}) = hz1', f'oi({T3}) = v3']
         elif hz == 'while_zero_trip_assign':
-            s = ['hz1 = 1', 'v3 = k1', 'do while (v3 < 2)', '  hz1 = 7', '  v3 = v3 + 1', 'end do', f'oi({T1}) = hz1']
+            s = ['hz1 = 1', 'v3 = k1 + 100', 'do while (v3 < 2)', '  hz1 = 7', '  v3 = v3 + 1', 'end do', f'oi({T1}) = hz1']
         elif hz == 'select_assign':
-            s = ['hz1 = 10', 'select case (mod(abs(k1), 3))', 'case (1)', '  hz1 = 11', 'case default', '  hz1 = 12',
+            s = ['hz1 = 10', 'select case (k1)', 'case (:100)', '  hz1 = 11', 'case default', '  hz1 = 12',
                  'end select', f'oi({T1}) = hz1']
         elif hz == 'associate_alias':
             s = ['hz1 = 2', 'associate (zz => hz1)', '  zz = k1 + 7', 'end associate', f'oi({T1}) = hz1']
@@ -743,7 +749,7 @@ class CPGen:
         elif hz == 'zero_trip_inner':
             s = ['hz1 = 1', 'do i = 1, 2', '  do j = 1, k2 - 100', '    hz1 = 5', '  end do', 'end do', f'oi({T1}) = hz1']
         elif hz == 'exit_in_loop':
-            s = ['hz1 = 1', 'do i = 1, 4', '  if (k1 + i > 3) exit', '  hz1 = 2', 'end do', f'oi({T1}) = hz1']
+            s = ['hz1 = 1', 'do i = 1, 4', '  if (k1 + i > -100) exit', '  hz1 = 2', 'end do', f'oi({T1}) = hz1']
         elif hz == 'cycle_in_loop':
             s = ['hz1 = 1', 'do i = 1, 4', '  if (k1 + i > -100) cycle', '  hz1 = 2', 'end do', f'oi({T1}) = hz1']
         elif hz == 'unroll_cycle':
@@ -758,7 +764,7 @@ class CPGen:
         elif hz == 'simp_int_quot_sum':
             s = [f'oi({T1}) = (k1 + 3) / 2']
         elif hz == 'simp_int_quot_product':
-            s = [f'oi({T1}) = k2*(k1 / 2)']
+            s = [f'oi({T1}) = 3*(k1 / 2)']
         elif hz == 'simp_int_quot_like_terms':
             s = [f'oi({T1}) = k1 / 2 + k1 / 2']
         elif hz == 'simp_real_div_literal':
@@ -772,10 +778,15 @@ class CPGen:
         elif hz == 'simp_neg_product':
             s = [f'orr({R1}) = -1.0_8 + (-((-y1)*(-2.0_8 + (-2.0_8))))']
         elif hz == 'simp_cond_int_quot':
-            s = ['if ((k1 + 1) / 2 > 0) then', '  hz1 = 1', 'else', '  hz1 = 2', 'end if', f'oi({T1}) = hz1']
+            s = ['if (mod((k1 + 3) / 2, 2) == 0) then', '  hz1 = 1', 'else', '  hz1 = 2', 'end if', f'oi({T1}) = hz1']
         elif hz == 'simp_cond_real_literal':
             s = ['if (y1 / 2.0_8 > 0.1_8) then', '  hz1 = 1', 'else', '  hz1 = 2', 'end if', f'oi({T1}) = hz1']
-        elif hz in ('sched_both', 'uvars_scalars_with_loops'):
+        elif hz == 'sched_both':
+            self.extra_hmod += ['  subroutine hkw(v, ur, d)', '    integer, intent(inout) :: v', '    real(8), intent(in) :: ur(:)',
+                                '    integer, intent(in) :: d', '    v = v + d', '  end subroutine hkw']
+            self.extra_use.append('hkw')
+            s = ['hz1 = k1', 'call hkw(hz1, d=2, ur=w)', f'oi({T1}) = hz1']
+        elif hz == 'uvars_scalars_with_loops':
             s = ['do i = 1, 2', f'  oi({T1}) = oi({T1}) + i', 'end do']
         elif hz == 'stale_second_pass':
             self.used_helpers.add('hset')
@@ -915,15 +926,18 @@ class CPGen:
               '    integer, intent(in) :: n, k1, k2', '    real(8), intent(in) :: x1',
               '    real(8), intent(inout) :: a(n)', '    real(8), intent(out) :: b(n)', '    integer, intent(inout) :: ia(n)',
               f'    integer, intent(inout) :: oi({NOI})', f'    real(8), intent(inout) :: orr({NOR})',
-              '    real(8) :: scr(n)', '    integer :: eu1', '    scr = 2.0_8']
-        if f['keyword_calls'] and rng.random() < 0.5:
+              '    real(8) :: scr(n)', '    integer :: eu1', '    scr = 2.0_8', '    eu1 = 3']
+        c = rng.random()
+        if f['keyword_calls'] and c < 0.3:
             L.append('    call kern(n, k1, 7, k2, x1, a, scr, b, orr=orr, oi=oi, ia=ia)')
+        elif f['keyword_calls'] and c < 0.6:
+            L.append('    call kern(n, k1, k2=k2, ud1=eu1, x1=x1, a=a, b=b, uda=scr, orr=orr, oi=oi, ia=ia)')
         else:
             L.append('    call kern(n, k1, k1 + 1, k2, x1, a, scr, b, ia, oi, orr)')
         L += ['  end subroutine entry']
         # lsub (same module, unused dummy array in the middle)
         lu = self.lsub_unused
-        L += ['  subroutine lsub(x, ua, t, r)', '    integer, intent(in) :: x', '    real(8), intent(in) :: ua(:)',
+        L += ['  subroutine lsub(x, nu, ua, t, r)', '    integer, intent(in) :: x, nu', '    real(8), intent(in) :: ua(nu)',
               '    real(8), intent(in) :: t', '    real(8), intent(out) :: r', '    integer :: lq, lun(2)']
         L += self._helper_prelude('    ', 'lq')
         L.append(f"    r = sin(t*real(lq + x, 8){'' if lu else ' + ua(1)'})")
